@@ -69,8 +69,11 @@ def Pred.test (e : Env) : Pred → Nat → Bool
   | .notone c ci, r => !(if ci then e.eqCi c r else c == r)
   | .set c ci, r => c.mem e ci r
 
+/-- `begz` ("at the beginning, or after an initial '\n'") is the mirror image of `endz`; it is
+    specification-only (no Go pattern produces it) and exists so that the mirror theorem of C15
+    (`Lemmas/SpecMirror.lean`) covers `\Z`. -/
 inductive Anchor where
-  | bol | eol | boundary | nonboundary | beginning | start | endz | «end»
+  | bol | eol | boundary | nonboundary | beginning | start | endz | «end» | begz
   deriving Inhabited, Repr, DecidableEq
 
 /-- The pattern AST (binary sequence and alternation; the n-ary forms are their right nesting). -/
@@ -118,6 +121,7 @@ def anchorHolds (e : Env) (a : Anchor) (p : Nat) : Bool :=
   | .start => p == e.textstart
   | .end => p == n
   | .endz => p == n || (p + 1 == n && after == some 10)
+  | .begz => p == 0 || (p == 1 && before == some 10)
   | .boundary => (before.map e.isWord).getD false != (after.map e.isWord).getD false
   | .nonboundary => (before.map e.isWord).getD false == (after.map e.isWord).getD false
 
